@@ -353,12 +353,17 @@ class WebsocketSession(object):
             log.debug('error in _recv', exc_info=True)
             self._socket_fail('recv fail; {}', error)
 
-    def _regular(self, poll, ping_rate, ping_timeout, close_timeout):
+    def _regular(self, poll, ping_rate, ping_timeout, close_timeout,
+                 timeouts=True):
         """Run regularly to do polling / pings."""
         # Check for regularly running actions.
         if self._check_poll(poll, self.session_time):
             yield events.Poll()
         self._check_auto_ping(ping_rate, self.session_time)
+        if not timeouts:
+            # Received data is waiting to be consumed, the answer the
+            # timeouts are waiting for may be part of it
+            return
         if self._check_ping_timeout(ping_timeout, self.session_time):
             yield events.Unresponsive()
             raise _ForceDisconnect(
@@ -439,11 +444,11 @@ class WebsocketSession(object):
             self._close_socket()
             raise
 
-        def _regular():
+        def _regular(timeouts=True):
             """Run regular events if websocket is ready."""
             if self._ready:
                 return self._regular(
-                    poll, ping_rate, ping_timeout, close_timeout
+                    poll, ping_rate, ping_timeout, close_timeout, timeouts
                 )
             return ()
 
@@ -455,7 +460,9 @@ class WebsocketSession(object):
             log.debug('%r created', selector)
             while not websocket.is_closed:
                 readable, max_bytes = selector.wait(self.BUFFER_SIZE, poll)
-                for event in _regular():
+                # A timeout only counts once what has been received is
+                # consumed, the answer it waits for may be part of it
+                for event in _regular(timeouts=not readable):
                     yield event
                 if readable:
                     data = self._recv(max_bytes)
@@ -463,12 +470,18 @@ class WebsocketSession(object):
                         for event in self.websocket.feed(data):
                             self._on_event(event, auto_pong)
                             yield event
-                            if event.name in ('closed', 'protocol_error'):
-                                # The websocket ends the connection as
-                                # soon as it is resumed; no timeout may
-                                # fire and no ping go out in between,
-                                # however long the event was handled.
+                            if event.name in (
+                                    'closing', 'closed', 'protocol_error'
+                            ):
+                                # The websocket answers the close or
+                                # ends the connection as soon as it is
+                                # resumed; no poll, ping or timeout in
+                                # between, however long the event was
+                                # handled.
                                 continue
+                            for event in _regular(timeouts=False):
+                                yield event
+                        if not websocket.is_closed:
                             for event in _regular():
                                 yield event
                     else:
